@@ -412,6 +412,38 @@ func normAtom(a Atom) Atom {
 	}
 }
 
+// condText: the text and polarity of a branch condition with `!` stripped, `x != y` read as `x == y` with the
+// opposite polarity, and a constant/nil left operand moved to the right - so that a rule that names a condition
+// does not depend on which of the equivalent spellings (and which branch order) the code uses.
+func condText(a Atom) (string, Pred) {
+	a = normAtom(a)
+	bo, ok := a.V.(*ssa.BinOp)
+	if !ok {
+		return desc(a.V), a.Want
+	}
+	x, y, op := bo.X, bo.Y, bo.Op
+	isConst := func(v ssa.Value) bool { _, c := stripConv(v).(*ssa.Const); return c }
+	if isConst(x) && !isConst(y) {
+		x, y = y, x
+		switch op {
+		case token.LSS:
+			op = token.GTR
+		case token.GTR:
+			op = token.LSS
+		case token.LEQ:
+			op = token.GEQ
+		case token.GEQ:
+			op = token.LEQ
+		}
+	}
+	want := a.Want
+	if op == token.NEQ && (want == True || want == False) {
+		op = token.EQL
+		want = want.neg()
+	}
+	return "(" + desc(x) + op.String() + desc(y) + ")", want
+}
+
 var stringListCache map[string][]string
 
 // globalStringLists: package-level []string variables initialised from a literal of string constants.
